@@ -171,7 +171,10 @@ class _Worker:
             if isinstance(v, np.ndarray) and v.base is None:
                 v = v.copy()
             elif isinstance(v, (list, dict, set)):
-                v = copy.deepcopy(v)
+                try:
+                    v = copy.deepcopy(v)
+                except Exception:  # noqa  (e.g. a container holding shared-memory blocks: shared across fork anyway)
+                    v = copy.copy(v)
             self.ns[k] = v
 
 
